@@ -4,3 +4,4 @@ import lib
 print(lib.build_model())
 print(lib.build_model(extract="c15model", driver="driver_c15.ml"))
 print(lib.build_model(extract="qfmodel", driver="driver_qf.ml"))
+print(lib.build_model(extract="qmmodel", driver="driver_qm.ml"))
